@@ -137,12 +137,12 @@ ghost v3_walIndex Int
 
 func litestream.(*Replica).appendWALSegmentV3(r, ctx, client, generation, seg, f) (n, err)
   requires 0 <= file_written[f] && file_written[f] < 4611686018427387904
-  modifies $heap, $alloc, file_written, file_synced
+  modifies $heap, $alloc, file_written, path_synced, path_handle, file_closed
   ensures n >= 0 && old(file_written[f]) + n < 4611686018427387904 && file_written == old(file_written)[f := old(file_written[f]) + n]
 
 func litestream.(*Replica).applyWALSegmentsV3(r, ctx, client, generation, snapshotIndex, segments, dbPath) (err)
   requires v3_opened == 0 && 0 <= snapshotIndex && snapshotIndex < 4611686018427387904
-  modifies $heap, $alloc, file_written, file_synced, v3_opened, v3_walIndex
+  modifies $heap, $alloc, file_written, path_synced, path_handle, file_closed, v3_opened, v3_walIndex
   at os.OpenFile#1 assert [C19.order] seg.Index == snapshotIndex + v3_opened
   at os.OpenFile#1 set v3_opened = v3_opened + 1
   at os.OpenFile#1 set v3_walIndex = seg.Index
@@ -394,4 +394,29 @@ func litestream.(*DB).EnforceL0RetentionByTime(db, ctx) (err)
   loop 1 invariant len(deleted) <= it_idx[itr] && (len(deleted) == it_idx[itr] || fmax(item(itr, len(deleted))) > maxL1TXID)
   loop 1 invariant forall i int :: {deleted[i]} 0 <= i && i < len(deleted) ==> deleted[i] != nil && deleted[i] == item(itr, i) && deleted[i].MaxTXID <= maxL1TXID && (deleted[i].CreatedAt == 0 || deleted[i].CreatedAt <= threshold)
   loop 2 invariant itr != nil && itOK(itr) && it_client[itr] == db.Replica.Client && it_level[itr] == 0 && !processedAll && len(deleted) < it_idx[itr]
+
+// ---------------------------------------------------------------------------
+// C11 / C03: publish by rename of a closed, synced temp file, then sync the directory.
+
+func litestream.WriteTXIDFile(outputPath, txid) (err)
+  requires !pub_renamed
+  modifies $alloc, file_written, path_synced, path_handle, file_closed, pub_dst, pub_renamed
+  at os.Create#all assert [C03.tmp-only] hasSuffix($arg0, ".tmp") && $arg0 == tmpPath
+  at os.Rename#all assert [C03.publish-from-tmp] $arg0 == tmpPath && $arg1 == txidPath && tmpPath == concat(txidPath, ".tmp") && !pub_renamed
+  at os.Rename#all assert [C11.flush] f != nil && path_handle[$arg0] == f && path_synced[$arg0] && file_closed[f]
+  at os.Rename#1 set pub_dst = $arg1
+  at os.Rename#1 set pub_renamed = ($result0 == nil)
+  ensures [C11.dir] err == nil ==> pub_renamed && path_synced[path_dir(pub_dst)]
+  ensures [C11.content] err == nil ==> path_synced[pub_dst]
+
+func litestream.(*DB).checkDatabaseBehindReplica(db, ctx) (err)
+  requires db != nil && !pub_renamed
+  modifies $heap, $alloc, file_written, path_synced, path_handle, file_closed, pub_dst, pub_renamed, it_idx
+  at os.Create#all assert [C03.tmp-only] hasSuffix($arg0, ".tmp") && $arg0 == tmpPath
+  at os.Rename#all assert [C03.publish-from-tmp] $arg0 == tmpPath && $arg1 == localPath && tmpPath == concat(localPath, ".tmp") && !pub_renamed
+  at os.Rename#all assert [C11.flush] tmpFile != nil && path_handle[$arg0] == tmpFile && path_synced[$arg0] && file_closed[tmpFile]
+  at os.Rename#1 set pub_dst = $arg1
+  at os.Rename#1 set pub_renamed = ($result0 == nil)
+  ensures [C11.dir] err == nil && pub_renamed ==> path_synced[path_dir(pub_dst)]
+  ensures [C11.content] err == nil && pub_renamed ==> path_synced[pub_dst]
 */
